@@ -63,7 +63,13 @@ def setup_worker(ctx):
     """tee on the stream the builders consume (the name bound in ctparse.corpus)"""
     import ctparse.corpus as CC
     st = ctx["c17"] = {"calls": []}
-    orig = CC.ctparse_gen
+    CC.tqdm = lambda x, **k: x
+    orig = getattr(CC, "ctparse_gen", None)
+    if orig is None:
+        # the builders reach the stream under another name: the tee (coverage information only - the expectations come
+        # from streams this check opens itself) cannot be attached
+        ctx["mon"].events["tee_unavailable"] += 1
+        return
 
     def tee(*a, **k):
         rec = {"args": a, "kw": k, "cands": []}
@@ -277,7 +283,7 @@ def run_case(case, ctx):
 
 
 def post_check(results, summaries, events, rules, tier):
-    need = ("tee_candidate", "samples_checked", "retrain_compared")
+    need = ("samples_checked", "retrain_compared") + (() if events.get("tee_unavailable") else ("tee_candidate",))
     miss = [k for k in need if not events.get(k)]
     if miss:
         yield ("inconclusive", "events never observed: %s" % miss)
